@@ -1,0 +1,17 @@
+//go:build verif
+
+package database
+
+import "github.com/safing/portbase/database/storage"
+
+// VerifStorage returns the storage backend behind a registered database, starting the database
+// if necessary. It only exists in builds with the "verif" tag: a conformance harness uses it to
+// look at what is physically stored (record state maintenance) and to empty a database between
+// recorded histories.
+func VerifStorage(name string) (storage.Interface, error) {
+	c, err := getController(name)
+	if err != nil {
+		return nil, err
+	}
+	return c.storage, nil
+}
